@@ -40,13 +40,16 @@ structure FileB where
   msgs : List MsgSkel := []
   enums : List EnumSkel := []
   svcs : List SvcSkel := []
+  uses : List Str := []
 
 def FileB.apply (f : FileB) (e : Eff) (svcs : List SvcSkel) : FileB :=
   { f with deps := e.imports.foldl (ensureImport f.name) f.deps,
-           msgs := f.msgs ++ e.msgs, enums := f.enums ++ e.enums, svcs := f.svcs ++ svcs }
+           msgs := f.msgs ++ e.msgs, enums := f.enums ++ e.enums, svcs := f.svcs ++ svcs,
+           uses := f.uses ++ e.uses }
 
 def FileB.skel (f : FileB) : FileSkel :=
-  { name := f.name, pkg := f.pkg, deps := f.deps, msgs := f.msgs, enums := f.enums, svcs := f.svcs }
+  { name := f.name, pkg := f.pkg, deps := f.deps, msgs := f.msgs, enums := f.enums, svcs := f.svcs,
+    uses := f.uses }
 
 /-- `subPackageFileName` -/
 def subPackageFileName (sourceFilename sub : Str) : Str :=
@@ -104,7 +107,7 @@ def convertFile (res : Resolver) (path : Str) (imports : List Import) (elems : L
   | .err t => .err t
   | .panic w => .panic w
   | .ok im =>
-    let c : Ctx := { im := im, res := res }
+    let c : Ctx := { resolve := resolveTypeNoImport im res }
     let steps := (elems.flatMap (itemsOfElem pkg)).flatMap (convItem c)
     match runSteps steps { main := { name := name, pkg := pkg } } with
     | .err t => .err t
@@ -145,7 +148,7 @@ def exportsField (np : List Str) (defName : Str) : Field → List (Str × TKind)
     (relName np nm, .message true) :: exportsProps (np ++ [nm]) props
   | .enumInl e _ _ =>
     let nm := if e.name = [] then defName else e.name
-    [(relName np nm, .enum e.pfx (e.opts.map (e.pfx ++ ·)))]
+    [(relName np nm, enumTKind { e with name := nm })]
   | .array items _ => exportsField np defName items
   | .map items _ => exportsField np defName items
   | _ => []
